@@ -301,7 +301,7 @@ class Check(PropertyCheck):
     def quote_texts(self) -> Tuple[List[str], List[str]]:
         """(all texts to compare model/impl on, the subjects s whose quoted forms are in there)"""
         n_raw = 4 if self.tier == 'quick' else 5
-        n_q = 3 if self.tier == 'quick' else 5
+        n_q = 3 if self.tier == 'quick' else 4
         subjects = strings_upto(ALPHA, n_q)
         self.stats['quote_alphabet'] = ''.join(ALPHA)
         self.stats['quote_raw_len'] = n_raw
@@ -313,7 +313,7 @@ class Check(PropertyCheck):
             subjects.append(''.join(self.rng.choice(pool) for _ in range(k)))
         self.stats['quote_random_subjects'] = nrand
         texts = set(strings_upto(ALPHA, n_raw))
-        nm_budget = 4000 if self.tier == 'quick' else 200000
+        nm_budget = 4000 if self.tier == 'quick' else 30000
         for i, s in enumerate(subjects):
             forms = [repr(s), dq_quote(s), dq_quote_full(s)]
             texts.update(forms)
@@ -462,7 +462,7 @@ class Check(PropertyCheck):
             if r < 0.45:
                 return self.rng.choice(pool + ['\xe9', 'a"b', 'a\\b'])
             if r < 0.6:
-                return self.rng.randint(-3, 1000)
+                return self.rng.choice([0, 0, 1, -1, self.rng.randint(-3, 1000)])
             if r < 0.7:
                 return self.rng.random() < 0.5
             if r < 0.9:
@@ -515,7 +515,8 @@ class Check(PropertyCheck):
         # validator
         tab = self.table
         known = [k for o in tab for k in o['keys']]
-        unknown = ['not-found', 'projectname', 'Project-Name', '', 'verbose ', '-v', 'no-such-option', 'add_package']
+        unknown = ['not-found', 'projectname', 'Project-Name', '', 'verbose ', '-v', 'no-such-option', 'add_package', 'v', 'q', 'W',
+                   'c', 'V', 'h', '-W', '---verbose', 'verbose-', 'VERBOSE', 'sourcepath', 'verbosity']
         for _ in range(300 if self.tier == 'quick' else 10000):
             keys = self.rng.sample(known, self.rng.randint(0, 4)) + self.rng.sample(unknown, self.rng.randint(0, 3))
             self.rng.shuffle(keys)
@@ -639,6 +640,10 @@ class Check(PropertyCheck):
                     cli = ['%s=%s' % (opt, v)]
                     ov = ['%s=%s' % (opt, (o['choices'][-1] if o['choices'] else ('9' if o['type'] == 'TyInt' else
                                            (CLASS_VALUES[d][0] if d in CLASS_VALUES else 'ovr'))))]
+                if o['type'] == 'TyInt' and isinstance(v, str) and re.fullmatch(r'-?(0|[1-9][0-9]*)', v):
+                    # TOML integers as people write them: pyval-repr-maxlines = 0
+                    out.append({'opt': d, 'key': key, 'fmt': 'pyproject.toml', 'style': 'plain', 'value': int(v), 'cli': cli,
+                                'override': ov, 'skip_override': True})
                 for fmt in FORMATS:
                     styles = ['plain'] if FORMATS[fmt][2] == 'toml' else ['plain', 'repr', 'dq']
                     for st in styles:
@@ -776,7 +781,8 @@ class Check(PropertyCheck):
         n_quote = len(cases)
         # (b) unknown keys
         for fmt in FORMATS:
-            for uk, uv in (('no-such-option', 'x'), ('projectname', 'y'), ('verbosity', '3'), ('sourcepath', 'z')):
+            for uk, uv in (('no-such-option', 'x'), ('projectname', 'y'), ('verbosity', '3'), ('sourcepath', 'z'), ('v', '1'),
+                           ('W', 'true')):
                 cases.append({'k': 'e2e_unknown', 'opt': 'projectname', 'key': 'project-name', 'fmt': fmt, 'style': 'plain',
                               'value': 'Known', 'more': [(uk, uv)], 'cli': ['--project-name=Known'], 'unknown': uk,
                               'override': None})
@@ -786,6 +792,20 @@ class Check(PropertyCheck):
             cases.append({'k': 'e2e_option', 'opt': 'privacy', 'key': 'privacy', 'fmt': fmt, 'style': 'plain',
                           'value': ['HIDDEN:a', 'PUBLIC:b'], 'cli': ['--privacy=HIDDEN:a', '--privacy=PUBLIC:b'],
                           'override': ['--intersphinx=http://x/objects.inv', '--privacy=PRIVATE:z'], 'positional': True})
+        # (c') the command line overrides the file also when the option is spelled another way argparse accepts
+        #      (combined short flags, unambiguous abbreviations); each has an exact-spelling twin
+        n_before_spelling = len(cases)
+        for key, val, cli, spelled, exact in (
+                ('verbose', 1, ['--verbose'], ['-vv'], ['--verbose', '--verbose']),
+                ('quiet', 1, ['--quiet'], ['-qq'], ['--quiet', '--quiet']),
+                ('privacy', ['HIDDEN:a'], ['--privacy=HIDDEN:a'], ['--priv=PRIVATE:z'], ['--privacy=PRIVATE:z']),
+                ('intersphinx', ['http://u/o.inv'], ['--intersphinx=http://u/o.inv'], ['--intersp=http://v/o.inv'],
+                 ['--intersphinx=http://v/o.inv']),
+                ('project-name', 'fromfile', ['--project-name=fromfile'], ['--project-n=cli'], ['--project-name=cli'])):
+            for fmt in ('pyproject.toml', 'setup.cfg'):
+                for sp, ov in (('spelled', spelled), ('exact', exact)):
+                    cases.append({'k': 'e2e_spelling', 'opt': key, 'key': key, 'fmt': fmt, 'style': 'plain', 'value': val,
+                                  'cli': cli, 'override': ov, 'spelling': sp})
         payloads = [self.e2e_payload(dict(c, k='e2e')) for c in cases]
         # (d) repeated options accumulate in order: raw namespace of parse_args
         acc = []
@@ -824,6 +844,10 @@ class Check(PropertyCheck):
                 continue
             cc = dict(c)
             fname = FORMATS[c['fmt']][0]
+            if c['k'] == 'e2e_spelling' and c['spelling'] == 'spelled':
+                twin_c, twin_r = cases[i + 1], impl[i + 1]
+                if twin_c['spelling'] == 'exact' and not self.judge_e2e(twin_c, twin_r):
+                    cc['class'] = 'cli_spelling_not_seen_by_configargparse'
             if c['fmt'] == 'pydoctor.ini' and r['views'][fname]['toml'] is not None and \
                     twins.get(json.dumps([c['k'], c['style'], c['value'], c.get('unknown')])):
                 cc['class'] = 'ini_file_read_as_toml'
@@ -969,7 +993,7 @@ class Check(PropertyCheck):
             print('observed : is_quoted=%r unquote_str=%r' % (r['isq'], r['unq']))
             print('property : unquote_str(quoted) must be the text')
             return 0 if (r['isq'] and r['unq'] == [0, case['s']]) else 1
-        if k in ('e2e_option', 'e2e_quote', 'e2e_unknown'):
+        if k in ('e2e_option', 'e2e_quote', 'e2e_unknown', 'e2e_spelling'):
             p = self.e2e_payload(dict(case, k='e2e'))
             r = lib.run_impl_worker(WORKER, [p])[0]
             fails = self.judge_e2e(case, r)
@@ -996,7 +1020,17 @@ class Check(PropertyCheck):
             b = (r['nofile_runs'][0]['opts'] or {}).get(case['opt'])
             print('written %r; file gives %r; command line gives %r' % (case['value'], a, b))
             return 0 if a == case['value'] == b else 1
-        if k in ('quote', 'pyspec', 'ini', 'toml', 'validate', 'ns'):
+        if k == 'validate':
+            r = lib.run_impl_worker(WORKER, [case])[0]
+            known = [x for o in self.table for x in o['keys']]
+            exp = [[a, b] for a, b in case['data'] if a in known]
+            expw = ['No such config option: %r' % a for a, _ in case['data'] if a not in known]
+            print('data     :', json.dumps(case['data']))
+            print('observed :', json.dumps(r))
+            print('property : known entries kept in order %s, one warning per unknown key %s, no exception'
+                  % (json.dumps(exp), json.dumps(expw)))
+            return 0 if ('ok' in r and r['ok'] == exp and r['warnings'] == expw) else 1
+        if k in ('quote', 'pyspec', 'ini', 'toml', 'ns'):
             r = lib.run_impl_worker(WORKER, [case])[0]
             print('case     :', json.dumps(case)[:1500])
             print('observed :', json.dumps(r)[:3000])
